@@ -671,12 +671,17 @@ def c03_programs(tier, sd):
            "blocks": [["sb0", "c", [E(["<", F("x"), F("y")]), E(["!=", F("z"), lit(0)])]]]}
     for sub_rand in (True, False):
         top = {"name": "Top", "fields": [fld("a", ("u", 8)), fld("b", ("s", 8)), fld("c", ("u", 8), False), fld("d", ("u", 4)),
+                                         fld("e", ("s", 4), False), fld("w", ("u", 16)),
                                          ["s", "obj", "Sub", sub_rand], ["rl", "rl", [["rng", lit(-5), lit(5)], lit(100)]],
-                                         ["m", "list", ["u", 8], 2, False, False]],
-               "blocks": [["cb0", "c", [E(["<", a, c]), E(["in_rl", b, ["rl"]]), E(["!=", d, ["ps", F("s", "x"), 3, 0]])]],
-                          ["cb1", "c", [["if", [[[">", c, lit(100)], [E(["in_list", a, ["m"]])]]], [E([">", F("s", "z"), ["-", b, lit(3)]])]]]]]}
+                                         ["m", "list", ["u", 8], 2, False, False], ["l", "list", ["u", 8], 2, True, False]],
+               "blocks": [["cb0", "c", [E(["<", a, c]), E(["in_rl", b, ["rl"]]), E(["!=", d, ["ps", F("s", "x"), 3, 0]]),
+                                        E([">=", F("w"), F("e")]), E(["!=", F("w"), b])]],
+                          ["cb1", "c", [["if", [[[">", c, lit(100)], [E(["in_list", a, ["m"]])]]], [E([">", F("s", "z"), ["-", b, lit(3)]])]]]],
+                          ["cb2", "c", [["foreach", ["l"], "i", [["if", [[[">", c, lit(100)], [E(["<", ["it", "i"], lit(10)])]]],
+                                                                  [E([">", ["it", "i"], lit(200)])]]]]]]]}
         pr = {"enums": {}, "classes": [sub, top]}
-        init = [["set", ["top", "c"], 50], ["set", ["top", "s", "y"], 200], ["set", ["top", "m", 0], 7], ["set", ["top", "m", 1], 120]]
+        init = [["set", ["top", "c"], 50], ["set", ["top", "s", "y"], 200], ["set", ["top", "m", 0], 7], ["set", ["top", "m", 1], 120],
+                ["set", ["top", "e"], -3]]
         edits = [
             ["set", ["top", "c"], 200], ["set", ["top", "c"], 1], ["set", ["top", "c"], 0], ["set", ["top", "a"], 33], ["set", ["top", "b"], -4],
             ["rand_mode", ["top", "a"], False], ["rand_mode", ["top", "a"], True], ["rand_mode", ["top", "b"], False], ["rand_mode", ["top", "d"], False],
@@ -688,6 +693,8 @@ def c03_programs(tier, sd):
             ["seq", [["rl_clear", ["top", "rl"]], ["rl_append", ["top", "rl"], ["rng", lit(200), lit(210)]]]],      # outside b's type: unsatisfiable
             ["set", ["top", "m", 0], 150], ["list_append", ["top", "m"], 199], ["list_clear", ["top", "m"]], ["list_assign", ["top", "m"], [10, 20, 30]],
             ["cmode", ["top"], "cb1", False], ["cmode", ["top"], "cb1", True],
+            ["set", ["top", "e"], -8], ["set", ["top", "e"], 7], ["set", ["top", "e"], -1], ["set", ["top", "b"], -100],
+            ["set", ["top", "w"], 65000], ["rand_mode", ["top", "w"], False],
         ]
         calls = [["randomize", ["top"]], ["randomize_with", ["top"], [E([">", a, lit(2)])]], ["vsc_randomize", [["top"]]],
                  ["vsc_randomize", [["top", "a"], ["top", "d"]]], ["vsc_randomize", [["top", "c"]]], ["vsc_randomize", [["top", "s"]]],
@@ -702,6 +709,11 @@ def c03_programs(tier, sd):
             for cl in calls[:4] + calls[7:8]:
                 out.append({"tag": "history", "desc": "sub_rand=%s edit %s then %s" % (sub_rand, e, cl[0:2]), "prog": pr,
                             "world": [["top", "obj", "Top"]], "ops": init + [["randomize", ["top"]]] + flat(e) + [cl, ["randomize", ["top"]]]})
+        # a failing call in the middle: fail, edit, call again (stale per-call rewrites must not survive the failure)
+        unsat = calls[7]
+        for e in edits:
+            out.append({"tag": "history_fail", "desc": "sub_rand=%s fail, edit %s, randomize" % (sub_rand, e), "prog": pr,
+                        "world": [["top", "obj", "Top"]], "ops": init + [["randomize", ["top"]], unsat] + flat(e) + [["randomize", ["top"]], unsat, ["vsc_randomize", [["top"]]]]})
         # seeded longer interleavings
         for i in range(nh):
             ops = list(init)
